@@ -526,6 +526,27 @@ impl Cluster {
             "Restart" => self.do_restart(g("n") as u32).await,
             "HoldApply" => self.do_hold_apply(g("n") as u32, g("on") == 1).await,
             "HoldIo" => self.do_hold_io(g("n") as u32, g("on") == 1).await,
+            // DEClient!Apply(n): the state machine of a node whose apply pipeline is held catches up with the
+            // commit index in one step (ApplyCompleted), then the hold is put back
+            "ApplyNow" => {
+                let n = g("n") as u32;
+                let held = self.is_up(n) && self.slots[&n].h.as_ref().unwrap().sm.hold.load(Ordering::SeqCst);
+                let ok = self.do_hold_apply(n, false).await;
+                if ok && held {
+                    self.slots[&n].h.as_ref().unwrap().sm.hold.store(true, Ordering::SeqCst);
+                }
+                ok
+            }
+            // every live node's apply pipeline is held from here on (schedules of the client-layer model)
+            "LagAll" => {
+                let ids: Vec<u32> = self.slots.keys().cloned().collect();
+                for n in ids {
+                    if self.is_up(n) {
+                        self.slots[&n].h.as_ref().unwrap().sm.hold.store(true, Ordering::SeqCst);
+                    }
+                }
+                true
+            }
             "Advance" => {
                 let ms = g("ms");
                 tokio::time::advance(Duration::from_millis(ms)).await;
